@@ -87,6 +87,7 @@ package server
 //@ func mapTokenType
 //@   props C17 C06
 //@   ensures [legend] result0 >= 0 && result0 <= 12
+//@   ensures [C17:line_structure_unmapped] t == 1 || t == 2 || t == 0 ==> !result1
 
 //@ specdef prevLine(ts []semanticToken, i int) int := ite(i > 0, ts[i - 1].line, 0)
 //@ specdef prevCol(ts []semanticToken, i int) int := ite(i > 0, ts[i - 1].col, 0)
@@ -163,13 +164,14 @@ package server
 //@   requires [C17:fits] tok.Pos.Column + len(tok.Value) <= 4294967295
 //@   ensures [legend] forall i int :: 0 <= i && i < len(result) ==> result[i].tokenType <= 12
 //@   ensures [fresh] fresh(result) || len(result) == 0
-//@   ensures [C17:tag_tokens_in_order] forall i int, j int :: {result[i]; result[j]} 0 <= i && i < j && j < len(result) ==> result[i].col + result[i].length <= result[j].col
+//@   ensures [C17:tag_tokens_in_order] forall i int, j int :: {result[i]; result[j]} 0 <= i && i < j && j < len(result) ==> result[i].col + result[i].length <= result[j].col && result[i].col <= result[j].col
 //@   ensures [C17:tag_tokens_inside_comment] forall i int :: {result[i]} 0 <= i && i < len(result) ==> result[i].line == tok.Pos.Line - 1 && tok.Pos.Column <= result[i].col && result[i].col + result[i].length <= tok.Pos.Column + len(tok.Value)
 //@   loop 1 invariant 0 - 1 <= rangeindex && 0 <= searchStart && searchStart <= len(commentText) && commentText == tok.Value && (fresh(tokens) || len(tokens) == 0)
 //@   loop 1 invariant forall i int :: 0 <= i && i < len(tokens) ==> tokens[i].tokenType <= 12
 //@   loop 1 invariant baseCol == tok.Pos.Column - 1 && baseLine == tok.Pos.Line - 1
 //@   loop 1 invariant forall i int :: {tokens[i]} 0 <= i && i < len(tokens) ==> tokens[i].line == baseLine && baseCol + 1 <= tokens[i].col && tokens[i].col + tokens[i].length <= baseCol + 1 + searchStart
-//@   loop 1 invariant forall i int, j int :: {tokens[i]; tokens[j]} 0 <= i && i < j && j < len(tokens) ==> tokens[i].col + tokens[i].length <= tokens[j].col
+//@   loop 1 invariant forall i int :: {tokens[i]} 0 <= i && i < len(tokens) ==> tokens[i].length >= 0
+//@   loop 1 invariant forall i int, j int :: {tokens[i]; tokens[j]} 0 <= i && i < j && j < len(tokens) ==> tokens[i].col + tokens[i].length <= tokens[j].col && tokens[i].col <= tokens[j].col
 //@   loop 1 decreases len(parts) - rangeindex
 
 //@ func tokenizeForSemantics
@@ -177,8 +179,12 @@ package server
 //@   functional semtok
 //@   requires len(content) < 2147483646
 //@   ensures [legend] forall i int :: 0 <= i && i < len(result) ==> result[i].tokenType <= 12
-//@   loop 1 invariant lexer != nil && fresh(lexer) && LexInv(lexer) && Pos16(lexer) && lexer.input == content
+//@   ensures [C17:emitted_in_order] ordTokS(result)
+//@   loop 1 invariant lexer != nil && fresh(lexer) && LexInv(lexer) && Pos16(lexer) && lexer.input == content && (len(tokens) == 0 || fresh(tokens))
 //@   loop 1 invariant forall i int :: 0 <= i && i < len(tokens) ==> tokens[i].tokenType <= 12
+//@   loop 1 invariant [C17:emitted_in_order] forall i int :: {tokens[i]} {seq(tokens)[i]} 0 < i && i < len(tokens) ==> tokens[i - 1].line < tokens[i].line || (tokens[i - 1].line == tokens[i].line && tokens[i - 1].col <= tokens[i].col)
+//@   loop 1 invariant [C17:behind_the_lexer] forall i int :: {tokens[i]} 0 <= i && i < len(tokens) ==> tokens[i].line <= lexer.line - 1
+//@   loop 1 invariant [C17:last_before_lexer_column] len(tokens) > 0 && tokens[len(tokens) - 1].line == lexer.line - 1 ==> tokens[len(tokens) - 1].col <= lexer.column - 1 || lexer.pos == len(lexer.input) || lexer.input[lexer.pos] == '\n'
 //@   loop 1 decreases len(content) - lexer.pos
 
 // ---- C01: the document mirror (Server.documents is a sync.Map: ghost map from interface values to interface values) ----
@@ -297,6 +303,7 @@ package server
 //@   requires s != nil && params != nil && tokenCache != nil && CacheOK(tokenCache) && DocSmall(s, params.TextDocument.URI)
 //@   ensures [C17:full_data] result0 != nil && (Live(s, params.TextDocument.URI) ==> seq(result0.Data) == encOf(semtok(docOf(s, params.TextDocument.URI))))
 //@   ensures [C17:full_empty] !Live(s, params.TextDocument.URI) ==> len(result0.Data) == 0
+//@   ensures [C17:full_decodes] Live(s, params.TextDocument.URI) ==> seq(tokenCache.cache[params.TextDocument.URI].tokens) == semtok(docOf(s, params.TextDocument.URI)) && ordTokS(tokenCache.cache[params.TextDocument.URI].tokens) && (forall j int :: {result0.Data[j]} 0 <= j && j < len(result0.Data) ==> result0.Data[j] == encAt(tokenCache.cache[params.TextDocument.URI].tokens, j))
 //@   ensures [C17:full_cache] Live(s, params.TextDocument.URI) ==> has(tokenCache.cache, params.TextDocument.URI) && tokenCache.cache[params.TextDocument.URI].resultID == result0.ResultID && tokenCache.cache[params.TextDocument.URI].data == result0.Data && result0.ResultID == fmtint(tokenCache.resultID) && tokenCache.resultID == old(tokenCache.resultID) + 1
 //@   ensures [ok] CacheOK(tokenCache)
 //@   modifies tokenCache.resultID, tokenCache.cache[*]
